@@ -392,7 +392,7 @@ def r07_4(ctx) -> None:
     ok = bool(rets)
     for r in rets:
         v = ctx.vals.expr(u, r.info.get("value"), r)
-        ok = ok and bool(v) and all(a[0] == "libinst" and a[1].endswith("_BorrowedAsyncIterator") for a in v)
+        ok = ok and bool(v) and all(a[0] == "libinst" and a[1] == ctx.pkg.cls(BORROW_CLASSES[0]).fq for a in v)
     ctx.check(ok, "R07.4", u, rets[0] if rets else "borrow", "borrow() returns a borrowed wrapper on every non-raising path")
     c = ctx.unit("_core.borrow")
     rets = [n for n in own_nodes(c.node) if isinstance(n, ast.Return)]
@@ -445,10 +445,13 @@ def _passed_unborrowed(ctx, unit, cfg, name: str) -> None:
                     # the callee takes ownership only of what it declares as an (any-)iterable it will
                     # close; a parameter typed as a plain AsyncIterator is advanced, not owned
                     from asl.values import roles_of_annotation
-                    ps = t.params()
+                    targs = t.node.args
+                    positional = list(targs.posonlyargs) + list(targs.args)
                     for i, a in enumerate(call.args):  # type: ignore[union-attr]
-                        if isinstance(a, ast.Name) and a.id == name and i < len(ps) \
-                                and "ITERABLE" in roles_of_annotation(ps[i].annotation):
+                        if not (isinstance(a, ast.Name) and a.id == name):
+                            continue
+                        param = positional[i] if i < len(positional) else targs.vararg
+                        if param is not None and "ITERABLE" in roles_of_annotation(param.annotation):
                             owning = True
                 elif ctx.pkg.lib_class(f[1]) is not None:
                     owning = True
